@@ -265,7 +265,49 @@ func vfAbstract(d *FSMDump, n int, polyAgr bool) *vfAbs {
 
 func vfUser(i int) string { return "user" + strconv.Itoa(i) }
 
+func vfPub(i int) []byte {
+	pub, _ := VFKeyPair(i)
+	return pub
+}
+
 var vfKey = []byte("0123456789ab")
+
+// VFKeyPair returns the deterministic ed25519 communication key pair of participant i (real keys in both modes).
+func VFKeyPair(i int) (ed25519.PublicKey, ed25519.PrivateKey) {
+	seed := make([]byte, ed25519.SeedSize)
+	for k := range seed {
+		seed[k] = byte(17*i + k + 1)
+	}
+	priv := ed25519.NewKeyFromSeed(seed)
+	return priv.Public().(ed25519.PublicKey), priv
+}
+
+// exported entry points for harnesses of other packages
+func VFUser(i int) string                            { return vfUser(i) }
+func VFEvents() []string                             { return vfEvents }
+func VFRequest(ev string, variant int) []interface{} { return vfRequest(ev, variant) }
+func VFPid(args []interface{}) (int, bool)           { return vfPid(args) }
+
+// VFDump builds the dump of abstract state abs for round id (gamma), marshalled.
+func VFDump(abs string, round string) ([]byte, *FSMDump) {
+	d := vfConcretize(vfParseAbs(abs))
+	d.TransactionId = round
+	d.Payload.DkgId = round
+	bz, _ := json.Marshal(d)
+	return bz, d
+}
+
+// VFAbsN returns the number of participants of an abstract state.
+func VFAbsN(abs string) int { return vfParseAbs(abs).N }
+
+// VFAbstractBytes abstracts a stored dump (alpha).
+func VFAbstractBytes(dump []byte, n int) string {
+	d := &FSMDump{}
+	if err := d.Unmarshal(dump); err != nil {
+		return "unparsable"
+	}
+	return vfAbstract(d, n, false).String()
+}
 
 // vfConcretize is γ: abstract state -> dump with that shape and symbolic content.
 func vfConcretize(a *vfAbs) *FSMDump {
@@ -278,7 +320,7 @@ func vfConcretize(a *vfAbs) *FSMDump {
 		}
 		for i := 0; i < a.N; i++ {
 			sp.Quorum[i] = &internal.SignatureProposalParticipant{
-				Username: vfUser(i), PubKey: vfKey, DkgPubKey: vfKey,
+				Username: vfUser(i), PubKey: vfPub(i), DkgPubKey: vfKey,
 				Status:    internal.ConfirmationParticipantStatus(a.Sig[i]),
 				Threshold: a.T, UpdatedAt: vf.Time("sig.p" + strconv.Itoa(i) + ".updated"),
 			}
@@ -287,7 +329,7 @@ func vfConcretize(a *vfAbs) *FSMDump {
 		p.PubKeys = map[string]ed25519.PublicKey{}
 		p.IDs = map[string]int{}
 		for i := 0; i < a.N; i++ {
-			p.PubKeys[vfUser(i)] = vfKey
+			p.PubKeys[vfUser(i)] = vfPub(i)
 			p.IDs[vfUser(i)] = i
 		}
 		if a.State == vfSigAwait {
@@ -354,7 +396,7 @@ func vfConcretize(a *vfAbs) *FSMDump {
 			sg.UpdatedAt = vf.Time("sgn.updated")
 		}
 		if a.Started {
-			sg.BatchID = vf.Str("sgn.batch")
+			sg.BatchID = vfStr("sgn.batch", "batch-cur")
 			vf.Assume(sg.BatchID != "")
 			tasks := []requests.SigningTask{{MessageID: "m1", File: "f1", Payload: vf.Bytes("sgn.payload", 1)}}
 			sg.SrcPayload, _ = json.Marshal(tasks)
@@ -391,6 +433,15 @@ func vfBytesLen(name string, maxLen int) []byte {
 	return vf.Bytes(name, n)
 }
 
+// vfStr: an unbounded symbolic string, or (param "shortstr", used by the node-level harnesses whose string reasoning is
+// otherwise too slow) a choice among the given constants.
+func vfStr(name string, options ...string) string {
+	if vf.Param("shortstr") == "" || len(options) == 0 {
+		return vf.Str(name)
+	}
+	return options[vf.Choose(name, len(options))]
+}
+
 func vfErrPtr(name string) *requests.FSMError {
 	if vf.Choose(name+".nil", 2) == 0 {
 		return nil
@@ -413,10 +464,14 @@ func vfRequest(ev string, variant int) []interface{} {
 	created := vf.TimeZ("req.created")
 	switch ev {
 	case "event_sig_proposal_init":
-		np := vf.Choose("req.np", vf.ParamInt("maxn")+1)
+		maxn := 3
+		if vf.Param("maxn") != "" {
+			maxn = vf.ParamInt("maxn")
+		}
+		np := vf.Choose("req.np", maxn+1)
 		var ps []*requests.SignatureProposalParticipantsEntry
 		for i := 0; i < np; i++ {
-			ps = append(ps, &requests.SignatureProposalParticipantsEntry{Username: vfUser(i), PubKey: vfKey, DkgPubKey: vfKey})
+			ps = append(ps, &requests.SignatureProposalParticipantsEntry{Username: vfUser(i), PubKey: vfPub(i), DkgPubKey: vfKey})
 		}
 		return []interface{}{requests.SignatureProposalParticipantsListRequest{Participants: ps, SigningThreshold: vf.Int("req.threshold"), CreatedAt: created}}
 	case "event_sig_proposal_confirm_by_participant", "event_sig_proposal_decline_by_participant":
@@ -438,18 +493,21 @@ func vfRequest(ev string, variant int) []interface{} {
 		nt := vf.Choose("req.ntasks", 2)
 		var tasks []requests.SigningTask
 		for i := 0; i < nt; i++ {
-			tasks = append(tasks, requests.SigningTask{MessageID: vf.Str("req.task.id"), File: "f", Payload: vfBytesLen("req.task.payload", 1),
-				RangeStart: vf.Int("req.task.rs"), RangeEnd: vf.Int("req.task.re")})
+			task := requests.SigningTask{MessageID: vfStr("req.task.id", "m1", ""), File: "f", Payload: vfBytesLen("req.task.payload", 1)}
+			if vf.Param("norange") == "" {
+				task.RangeStart, task.RangeEnd = vf.Int("req.task.rs"), vf.Int("req.task.re")
+			}
+			tasks = append(tasks, task)
 		}
-		return []interface{}{requests.SigningBatchProposalStartRequest{BatchID: vf.Str("req.batch"), ParticipantId: vf.Int("req.pid"), CreatedAt: created, SigningTasks: tasks}}
+		return []interface{}{requests.SigningBatchProposalStartRequest{BatchID: vfStr("req.batch", "batch-new", ""), ParticipantId: vf.Int("req.pid"), CreatedAt: created, SigningTasks: tasks}}
 	case "event_signing_partial_sign_received":
 		ns := vf.Choose("req.nsigns", 3)
 		var ps []requests.PartialSign
 		for i := 0; i < ns; i++ {
 			is := strconv.Itoa(i)
-			ps = append(ps, requests.PartialSign{MessageID: vf.Str("req.sign" + is + ".id"), Sign: vfBytesLen("req.sign"+is+".sig", 1)})
+			ps = append(ps, requests.PartialSign{MessageID: vfStr("req.sign"+is+".id", "m1", "m2", ""), Sign: vfBytesLen("req.sign"+is+".sig", 1)})
 		}
-		return []interface{}{requests.SigningProposalBatchPartialSignRequests{BatchID: vf.Str("req.batch"), ParticipantId: vf.Int("req.pid"), PartialSigns: ps, CreatedAt: created}}
+		return []interface{}{requests.SigningProposalBatchPartialSignRequests{BatchID: vfStr("req.batch", "batch-cur", "batch-old", ""), ParticipantId: vf.Int("req.pid"), PartialSigns: ps, CreatedAt: created}}
 	case "event_signing_partial_sign_error_received":
 		return []interface{}{requests.SignatureProposalConfirmationErrorRequest{ParticipantId: vf.Int("req.pid"), Error: vfErrPtr("req.err"), CreatedAt: created}}
 	}
